@@ -45,6 +45,8 @@ def units(ctx):
            for c in specs.delegate_contracts(ctx.tier)]
     us += [contract_unit(c, world_setup=specs.setup)
            for c in specs.clone_contracts()]
+    us += [contract_unit(c, world_setup=specs.setup_definition)
+           for c in specs.definition_contracts()]
     return us
 
 
